@@ -3,7 +3,7 @@
 From Coq Require Import Sorted.
 From BV Require Import Base.Prelude Model.Block Model.ForkDB Model.Forkable Model.ForkableLookups Model.Burst Model.Hub
   Spec.Consumer Spec.Universe Check.Fk_Check Check.Burst_Check Spec.C09_Spec Spec.C05_Spec
-  Spec.C01_Spec Spec.C01_Moving_Spec Spec.C05_History_Spec
+  Spec.C05_Through_Spec Spec.C01_Spec Spec.C01_Moving_Spec Spec.C05_History_Spec
   Proofs.Fk.StoreFacts Proofs.Fk.WalkFacts Proofs.Fk.LoopFacts Proofs.Fk.FixedLib
   Proofs.Fk.MovingLibInv Proofs.Fk.MovingLibFin Proofs.Fk.MovingLibDisc Proofs.C02_Proofs Spec.C01_Roots_Spec Proofs.C01_Roots_Proofs
   Proofs.Hub.StepFields Proofs.Hub.ConsFacts Proofs.Hub.StepStore Proofs.Hub.Retention Proofs.Hub.HubInv Proofs.Hub.HubRun Proofs.Hub.LinkedRuns Proofs.Hub.CursorLife.
@@ -137,6 +137,43 @@ Section History.
     exact (serve_at h cfg Hid Huniq Hup a _ Fin S c HP ek ck0 P Q F0 B0 hd sg HC HF Hl0 HF0 Hnu HH HRt Hls E Hlibin).
   Qed.
 
+  Lemma final_history_proof k m ek cm hd sg :
+    nth_error (concat (map fst (firstn (length tr) tr))) k = Some ek -> estep ek = SIrr ->
+    (k < length (concat (map fst (firstn m tr))))%nat ->
+    cons_fold cons0 (concat (map fst (firstn m tr))) = Some cm ->
+    last_sent (state_after cfg s0 h m) = Some hd ->
+    complete_segment (db (state_after cfg s0 h m)) (bref hd) = Some (sg, true) ->
+    block_in (ri (ecblk ek)) sg = true ->
+    exists evs P F0,
+      blocks_from_cursor (state_after cfg s0 h m) (ev_cursor ek) = BOk evs /\
+      ecblk ek = bref (eblk ek) /\ elib ek = bref (eblk ek) /\
+      finals_of cm = P ++ F0 /\ (P = [] \/ exists P', P = P' ++ [eblk ek]) /\
+      map eblk (irr_events evs) = F0.
+  Proof.
+    intros Hk HeI Hlt Hcm Hls E Hin.
+    destruct (hist_upto m) as (sm & HR & Hsm & HEm & HPh). rewrite HEm in Hlt, Hcm. subst sm.
+    set (Em := all_events (fk_run cfg s0 (firstn m h))) in *.
+    rewrite firstn_all in Hk. fold (all_events tr) in Hk.
+    assert (Hall : all_events tr = Em ++ all_events (skipn m tr)).
+    { rewrite <- (firstn_skipn m tr) at 1. rewrite all_events_app. f_equal.
+      unfold all_events at 1. rewrite HEm. reflexivity. }
+    rewrite Hall in Hk. rewrite nth_error_app1 in Hk by exact Hlt.
+    destruct (nth_split_firstn Em k ek Hk) as [HsplitE _].
+    destruct HPh as [[_ HE0]|(a & Fin & S & c & HP & Hc & _ & _ & HIr)].
+    { rewrite HE0 in Hlt. cbn in Hlt. lia. }
+    rewrite Hcm in Hc. injection Hc as <-.
+    destruct (HIr (firstn k Em) ek (skipn (Datatypes.S k) Em) HsplitE HeI) as (P & F0 & HF & HL & HeU & Hcb & Hlb & Hl0 & HF0).
+    rewrite Hcb in Hin. rewrite <- Hlb in Hin.
+    destruct (final_at h cfg Hid Huniq Hup a _ Fin S cm HP ek P F0 hd sg HeI HF HL HeU Hcb Hlb Hl0 HF0 Hls E Hin) as (evs & HB & Hirr).
+    exists evs, P, F0. split; [exact HB|]. split; [exact Hcb|]. split; [exact Hlb|]. split; [|split; [|exact Hirr]].
+    - (* the consumer's final blocks are Fin *)
+      rewrite (po_cons h cfg _ _ _ _ _ HP). unfold finals_of. cbn [cs_nf cs_stack].
+      destruct (post_head h cfg Hid Huniq Hup a _ Fin S cm HP) as (hd' & p & _ & _ & _ & HS & _).
+      rewrite HS, rev_involutive, firstn_app, Nat.sub_diag, firstn_all. cbn [firstn]. rewrite app_nil_r. exact HF.
+    - destruct P as [|x P0 _] using rev_ind; [left; reflexivity|]. right. exists P0.
+      unfold libblk in HL. rewrite rev_app_distr in HL. cbn [rev app] in HL. rewrite HL. reflexivity.
+  Qed.
+
   Lemma total_history_proof :
     length tr = length h /\ Forall (fun x => snd x = ROk) tr /\
     (forall n, exists c, cons_fold cons0 (firstn n (all_events tr)) = Some c) /\
@@ -188,4 +225,10 @@ Lemma c05_serves_history_proof : C05_serves_history.
 Proof.
   intros first kept h k m ek hd sg Hwf Hok cfg tr upto s Hk Hnu Hlt Hls E Hlibin.
   exact (serves_history_proof first kept h Hwf Hok k m ek hd sg Hk Hnu Hlt Hls E Hlibin).
+Qed.
+
+Lemma c05_final_history_proof : C05_final_history.
+Proof.
+  intros first kept h k m ek cm hd sg Hwf Hok cfg tr upto s Hk HeI Hlt Hcm Hls E Hin.
+  exact (final_history_proof first kept h Hwf Hok k m ek cm hd sg Hk HeI Hlt Hcm Hls E Hin).
 Qed.
